@@ -7,7 +7,7 @@ from trie.smt import SparseMerkleTree, calc_root  # noqa: E402
 from eth_hash.auto import keccak  # noqa: E402
 
 ID = "C14"
-LEAN_IMPORTS = ["PyTrie.Props.C14"]
+LEAN_IMPORTS = ["PyTrie.Props.C14", "PyTrie.Props.SmtInt"]
 THEOREMS = [
     "PyTrie.Props.C14.run_rep",
     "PyTrie.Props.C14.root_is_merkle_root",
@@ -21,6 +21,10 @@ THEOREMS = [
     "PyTrie.Smt.getAux_of_rep",
     "PyTrie.Smt.set_spec",
     "PyTrie.Smt.calcRoot_siblings",
+    "PyTrie.Props.SmtInt.bit_is_list_element",
+    "PyTrie.Props.SmtInt.get_agrees",
+    "PyTrie.Props.SmtInt.set_agrees",
+    "PyTrie.Props.SmtInt.calc_root_agrees",
 ]
 RULE = ("key sizes 1, 2, 3 and 32 (and others at random), blank and non-blank defaults, histories of set / delete (method and "
         "dict syntax, values equal to the default, blank values, rewrites) over key pools whose members differ at every bit "
